@@ -74,6 +74,20 @@ var c16PRF = probe.Define("C16", "prf-prime", func(t *rapid.T) c16In {
 			return probe.Fail("%s (%d octets) differs from octets %d..%d of PRF'(IK'|CK', \"EAP-AKA'\"|Identity)", x.name, len(x.got), x.from, x.to-1)
 		}
 	}
+	// keys handed out stay what they are when further derivations are made (no shared buffer behind them)
+	if err := probe.Try(func() error {
+		for i := 0; i < 3; i++ {
+			if _, _, _, _, _, e := eap.EapAkaPrimePRF(append([]byte{byte(i)}, in.CK...), append([]byte{0x5a}, in.IK...), string(in.Identity)+"x"); e != nil {
+				return e
+			}
+		}
+		return nil
+	}); err != nil {
+		return probe.Fail("further derivation failed: %v", err)
+	}
+	if !bytes.Equal(kEncr, mk[0:16]) || !bytes.Equal(kAut, mk[16:48]) || !bytes.Equal(kRe, mk[48:80]) || !bytes.Equal(msk, mk[80:144]) || !bytes.Equal(emsk, mk[144:208]) {
+		return probe.Fail("keys returned earlier changed after further derivations were made")
+	}
 	hi := false
 	for _, b := range in.Identity {
 		if b >= 0x80 || b == 0 {
